@@ -574,8 +574,12 @@ class Model(Object):
         # once)
         present = []
         for x in metabolite_list:
-            if x.id in self.metabolites and not any(x is y for y in present):
-                present.append(x)
+            if x.id in self.metabolites:
+                # an object with the same id that belongs to another model (the
+                # original of a copy) stands for this model's own metabolite
+                x = self.metabolites.get_by_id(x.id)
+                if not any(x is y for y in present):
+                    present.append(x)
         metabolite_list = present
         for x in metabolite_list:
             x._model = None
